@@ -1,3 +1,7 @@
 // Kani harnesses (child module of crates/axmos-db/src/io/disk/mod.rs).  See /verif/HARNESS_GUIDE.md
+// Intentionally empty.  The WAL harnesses need a `DBFile` but must not depend on this file: the driver injects a
+// harness file only when one of ITS obligations is selected (and `--replay` injects exactly one file), so a helper
+// defined here would be missing from those builds.  c17_wal_io.rs builds its never-used DBFile by transmuting a
+// struct with the same field list (`f: File, p: PathBuf`) instead.
 #![allow(unused_imports, dead_code, clippy::all)]
 use super::*;
